@@ -282,6 +282,16 @@ func (w *World) Do(o fsx.Op) (r fsx.Reply, implFail bool, mis *reffs.Mismatch) {
 			}
 		}
 		return
+	case "FAILMANY":
+		// many requests in a row that fail after having modified something (a name that is too long: the inode is
+		// allocated first) - the aborts drop cached inodes again and again within one server instance
+		for i := 0; i < int(o.Cnt); i++ {
+			k := []string{"MKDIR", "CREATE", "SYMLINK"}[i%3]
+			if _, _, m := w.Do(fsx.Op{K: k, H: o.H, N: nameOfLen(200+i%7, 'f'), Target: "t", As: "_"}); m != nil {
+				return r, false, m
+			}
+		}
+		return
 	case "CREATEMANY":
 		for i := 0; i < int(o.Cnt); i++ {
 			name := fmt.Sprintf("%s%03d", o.N, i)
